@@ -110,6 +110,8 @@ CLAIMED.update({
             "(the whole pipeline, chromosome naming included, completes; three further hypotheses each shown necessary by a computed counterexample); "
             "C02_end_to_end_painted(_order): the capstone for maps with untagged or Painted baits; C02_end_to_end_painted_named: a painted piece lands in a "
             "rank-1 scaffold made from its own Pretext scaffold, named <prefix><k>[_unloc_<m>] (one more hypothesis, shown necessary). "
+            "TAGGED maps: C02_completion_tagged -- remap_to_input completes on every tiling map whose tags are consistent per Pretext scaffold (a decidable "
+            "condition on the tags alone: one name tag, one haplotype tag, Primary only with a haplotype tag, Unloc only when painted), each clause shown necessary. "
             "Coq theorems about the remapping stage (remap_to_input), no size bound, for EVERY PretextView-model edit script and more: "
             "(1) C02_completion: for every map that tiles every scaffold it shows (ascending baits cover 1..E without hole or overlap, "
             "pieces >= 2 texels when a scaffold is shown in more than one piece, any order / orientation / grouping, any subset of "
